@@ -21,8 +21,9 @@ ASSUMPTIONS = [
     'implementation, by the rendered+re-quantized steps being compared with the step-level model on every case; '
     'the float model itself is tied to the real to_sequence through the regenerated sample table in Gen/G06.v '
     '(C06_float_model_matches_samples)',
-    'Performance: quantized inputs have positive-length notes, no two overlapping notes of one pitch, and start '
-    'times ordered like their start steps (what a rendered-and-requantized sequence always satisfies)',
+    'Performance: quantized inputs have positive-length notes, no NESTED notes of one pitch (a later-started note of a '
+    'pitch ending strictly before an earlier-started one: FIFO note-off pairing cannot represent it, and the round '
+    'trip is refuted there), and start times ordered like their start steps',
     'the models follow note_seq after notes/C06-fix-1.diff (ChordProgression.to_sequence honours start_step) and '
     'notes/C06-fix-2.diff (PianorollSequence.to_sequence spans all frames); PR_LEGACY switches the second one',
 ]
@@ -1076,7 +1077,9 @@ META = {
                    'parameters, for each of the 8 event-sequence types: a boolean predicate canonical_T; canonical_T es '
                    '=> extraction(render(es)) = es with the same start step, end step and resolution; every extractor '
                    'output satisfies canonical_T (Performance also in the literal form: extraction output is a fixpoint '
-                   'of render-then-extract).  Float level (Flocq, full binary64, no fallback): quantize_to_step(step * '
+                   'of render-then-extract; Performance / MetricPerformance incl. one pitch sounding twice at once as '
+                   'long as same-pitch notes are not nested (boolean no_nested_same_pitch), and refuted for nested '
+                   'ones: C06_perf_nested_refuted).  Float level (Flocq, full binary64, no fallback): quantize_to_step(step * '
                    'seconds_per_step + start * seconds_per_step) = step + start for all steps up to 2^31, '
                    'steps_per_quarter 1..96 / steps_per_second 1..1000, every finite qpm in [10, 480], for the three '
                    'seconds_per_step formulas of the code; rendered times strictly increase with the step.  Composed: '
